@@ -796,7 +796,13 @@ class GroupCoordinator(BaseCoordinator):
             if idle_time < self._max_poll_interval:
                 sleep_time = min(sleep_time, self._max_poll_interval - idle_time)
             else:
-                await self._maybe_leave_group()
+                try:
+                    await self._maybe_leave_group()
+                except asyncio.CancelledError:
+                    # Stopped by the coordination routine (see
+                    # `_stop_heartbeat_task()`), that must not be cancelled
+                    # by this itself
+                    break
 
         log.debug("Stopping heartbeat task")
 
